@@ -132,13 +132,13 @@ Section Derive.
              agree (sconcatR concatB (t st)) (res_bind (sconcat concatA st) f)
   }.
 
-  Lemma has_callI n : has n PI = true -> exists i, nI n = Some i /\ forall x, callI n x = i x.
+  Lemma has_callI (n : node) : has n PI = true -> exists i, nI n = Some i /\ forall x, callI n x = i x.
   Proof. unfold has, callI. destruct (nI n); simpl; intros; try discriminate; eauto. Qed.
-  Lemma has_callS n : has n PS = true -> exists i, nS n = Some i /\ forall x, callS n x = i x.
+  Lemma has_callS (n : node) : has n PS = true -> exists i, nS n = Some i /\ forall x, callS n x = i x.
   Proof. unfold has, callS. destruct (nS n); simpl; intros; try discriminate; eauto. Qed.
-  Lemma has_callC n : has n PC = true -> exists i, nC n = Some i /\ forall x, callC n x = i x.
+  Lemma has_callC (n : node) : has n PC = true -> exists i, nC n = Some i /\ forall x, callC n x = i x.
   Proof. unfold has, callC. destruct (nC n); simpl; intros; try discriminate; eauto. Qed.
-  Lemma has_callT n : has n PT = true -> exists i, nT n = Some i /\ forall x, callT n x = i x.
+  Lemma has_callT (n : node) : has n PT = true -> exists i, nT n = Some i /\ forall x, callT n x = i x.
   Proof. unfold has, callT. destruct (nT n); simpl; intros; try discriminate; eauto. Qed.
 
   Hint Resolve agree_refl : core.
